@@ -205,16 +205,20 @@ type recipe struct {
 	name                        string
 	pre, open, leaf, close, end string
 	ty                          func(depth int) spec.T
+	// maxN, when non-zero, bounds the repeat count: recipes that nest forged
+	// 16/32-bit length headers make the unchanged tree allocate (and zero) about
+	// 1-2 MB per level, i.e. gigabytes per case at full depth
+	maxN int
 }
 
 func nest(k string, depth int, leaf spec.T) spec.T {
 	if depth > 40 {
 		depth = 40
 	}
-	if k == spec.KSet && depth > 17 {
+	if k == spec.KSet && depth > 15 {
 		// building nested sets costs 2^depth (known finding C17-nested-set-exponential):
-		// depth 17 is 125 MB / 0.6 s, depth 40 would never finish
-		depth = 17
+		// depth 15 is 31 MB / 0.15 s, depth 40 would never finish
+		depth = 15
 	}
 	ty := leaf
 	for i := 0; i < depth; i++ {
@@ -239,140 +243,167 @@ func bin(s string) string { return string(append(mpMakeHeader('b', uint32(len(s)
 
 var memRecipes = map[string][]recipe{
 	DJSONValue: {
-		{"list-nest", "", "[", "null", "]", "", func(d int) spec.T { return nest(spec.KList, d, spec.Dynamic) }},
-		{"list-nest-str", "", "[", `"x"`, "]", "", func(d int) spec.T { return nest(spec.KList, d, spec.String) }},
-		{"set-nest", "", "[", "1", "]", "", func(d int) spec.T { return nest(spec.KSet, d, spec.Number) }},
-		{"tuple-nest", "", "[", "true", "]", "", func(d int) spec.T { return nest(spec.KTuple, d, spec.Bool) }},
-		{"obj-nest", "", `{"a":`, "null", "}", "", func(d int) spec.T { return nest(spec.KObject, d, spec.String) }},
-		{"map-nest", "", `{"a":`, "1", "}", "", func(d int) spec.T { return nest(spec.KMap, d, spec.Number) }},
-		{"list-nest-dyn", "", "[", "", "]", "", dyn},
-		{"dyn-nest", "", `{"type":"dynamic","value":`, `{"type":"string","value":"x"}`, "}", "", dyn},
-		{"dyn-nest-valuefirst", "", `{"value":`, `null`, `,"type":"dynamic"}`, "", dyn},
-		{"dyn-list-nest", "", `{"type":["list","dynamic"],"value":[`, `{"type":"number","value":1}`, `]}`, "", dyn},
-		{"dyn-tuple-nest", "", `{"type":["tuple",["dynamic"]],"value":[`, `null`, `]}`, "", dyn},
-		{"dyn-type-nest", `{"value":null,"type":`, `["list",`, `"string"`, `]`, "}", dyn},
-		{"wide-list", "[", "1,", "1]", "", "", constT(spec.List(spec.Number))},
-		{"wide-set", "[", `"a",`, `"b"]`, "", "", constT(spec.Set(spec.String))},
-		{"wide-list-dyn", "[", `{"type":"bool","value":true},`, `{"type":"bool","value":false}]`, "", "", constT(spec.List(spec.Dynamic))},
-		{"wide-tuple", "[", "1,", "1]", "", "", constT(spec.Tuple(spec.Number, spec.Number))},
-		{"wide-map-dupkeys", "{", `"a":1,`, `"a":2}`, "", "", constT(spec.Map(spec.Number))},
-		{"wide-obj-dupkeys", "{", `"a":"x",`, `"a":"y"}`, "", "", constT(spec.Object(spec.Attr{Name: "a", T: spec.String}))},
-		{"long-string", `"`, "a", `"`, "", "", constT(spec.String)},
-		{"long-string-esc", `"`, `é`, `"`, "", "", constT(spec.String)},
-		{"long-string-combining", `"e`, "́", `"`, "", "", constT(spec.String)},
-		{"long-digits", "", "9", "", "", "", constT(spec.Number)},
-		{"long-fraction", "0.", "0", "1", "", "", constT(spec.Number)},
-		{"long-exponent", "1e", "9", "", "", "", constT(spec.Number)},
-		{"long-exponent-neg", "1e-", "9", "", "", "", constT(spec.Number)},
-		{"long-digits-as-string", "", "7", "", "", "", constT(spec.String)},
-		{"whitespace", "", " ", "1", "", "", constT(spec.Number)},
-		{"capsule-nest", "", `{"N":`, "1", "}", "", constT(spec.CapsuleT("A"))},
+		{"list-nest", "", "[", "null", "]", "", func(d int) spec.T { return nest(spec.KList, d, spec.Dynamic) }, 0},
+		{"list-nest-str", "", "[", `"x"`, "]", "", func(d int) spec.T { return nest(spec.KList, d, spec.String) }, 0},
+		{"set-nest", "", "[", "1", "]", "", func(d int) spec.T { return nest(spec.KSet, d, spec.Number) }, 0},
+		{"tuple-nest", "", "[", "true", "]", "", func(d int) spec.T { return nest(spec.KTuple, d, spec.Bool) }, 0},
+		{"obj-nest", "", `{"a":`, "null", "}", "", func(d int) spec.T { return nest(spec.KObject, d, spec.String) }, 0},
+		{"map-nest", "", `{"a":`, "1", "}", "", func(d int) spec.T { return nest(spec.KMap, d, spec.Number) }, 0},
+		{"list-nest-dyn", "", "[", "", "]", "", dyn, 0},
+		{"dyn-nest", "", `{"type":"dynamic","value":`, `{"type":"string","value":"x"}`, "}", "", dyn, 0},
+		{"dyn-nest-valuefirst", "", `{"value":`, `null`, `,"type":"dynamic"}`, "", dyn, 0},
+		{"dyn-list-nest", "", `{"type":["list","dynamic"],"value":[`, `{"type":"number","value":1}`, `]}`, "", dyn, 0},
+		{"dyn-tuple-nest", "", `{"type":["tuple",["dynamic"]],"value":[`, `null`, `]}`, "", dyn, 0},
+		{"dyn-type-nest", `{"value":null,"type":`, `["list",`, `"string"`, `]`, "}", dyn, 0},
+		{"wide-list", "[", "1,", "1]", "", "", constT(spec.List(spec.Number)), 0},
+		{"wide-set", "[", `"a",`, `"b"]`, "", "", constT(spec.Set(spec.String)), 0},
+		{"wide-list-dyn", "[", `{"type":"bool","value":true},`, `{"type":"bool","value":false}]`, "", "", constT(spec.List(spec.Dynamic)), 0},
+		{"wide-tuple", "[", "1,", "1]", "", "", constT(spec.Tuple(spec.Number, spec.Number)), 0},
+		{"wide-map-dupkeys", "{", `"a":1,`, `"a":2}`, "", "", constT(spec.Map(spec.Number)), 0},
+		{"wide-obj-dupkeys", "{", `"a":"x",`, `"a":"y"}`, "", "", constT(spec.Object(spec.Attr{Name: "a", T: spec.String})), 0},
+		{"long-string", `"`, "a", `"`, "", "", constT(spec.String), 0},
+		{"long-string-esc", `"`, `é`, `"`, "", "", constT(spec.String), 0},
+		{"long-string-combining", `"e`, "́", `"`, "", "", constT(spec.String), 0},
+		{"long-digits", "", "9", "", "", "", constT(spec.Number), 0},
+		{"long-fraction", "0.", "0", "1", "", "", constT(spec.Number), 0},
+		{"long-exponent", "1e", "9", "", "", "", constT(spec.Number), 0},
+		{"long-exponent-neg", "1e-", "9", "", "", "", constT(spec.Number), 0},
+		{"long-digits-as-string", "", "7", "", "", "", constT(spec.String), 0},
+		{"whitespace", "", " ", "1", "", "", constT(spec.Number), 0},
+		{"capsule-nest", "", `{"N":`, "1", "}", "", constT(spec.CapsuleT("A")), 0},
 	},
 	DJSONType: {
-		{"list-nest", "", `["list",`, `"string"`, "]", "", dyn},
-		{"set-nest", "", `["set",`, `"dynamic"`, "]", "", dyn},
-		{"map-nest", "", `["map",`, `"bool"`, "]", "", dyn},
-		{"tuple-nest", "", `["tuple",[`, `"number"`, "]]", "", dyn},
-		{"object-nest", "", `["object",{"a":`, `"string"`, "}]", "", dyn},
-		{"object-nest-opt", "", `["object",{"a":`, `"string"`, `},["a"]]`, "", dyn},
-		{"wide-tuple", `["tuple",[`, `"string",`, `"string"]]`, "", "", dyn},
-		{"wide-object-dup", `["object",{`, `"a":"string",`, `"a":"number"}]`, "", "", dyn},
-		{"wide-optional", `["object",{"a":"string"},[`, `"a",`, `"a"]]`, "", "", dyn},
-		{"long-keyword", `"`, "x", `"`, "", "", dyn},
-		{"long-attr", `["object",{"`, "k", `":"string"}]`, "", "", dyn},
-		{"bare-nest", "", "[", "", "]", "", dyn},
-		{"bare-nest-open", "", "[", "", "", "", dyn},
-		{"list-nest-open", "", `["list",`, "", "", "", dyn},
-		{"whitespace", "", " ", `"string"`, "", "", dyn},
+		{"list-nest", "", `["list",`, `"string"`, "]", "", dyn, 0},
+		{"set-nest", "", `["set",`, `"dynamic"`, "]", "", dyn, 0},
+		{"map-nest", "", `["map",`, `"bool"`, "]", "", dyn, 0},
+		{"tuple-nest", "", `["tuple",[`, `"number"`, "]]", "", dyn, 0},
+		{"object-nest", "", `["object",{"a":`, `"string"`, "}]", "", dyn, 0},
+		{"object-nest-opt", "", `["object",{"a":`, `"string"`, `},["a"]]`, "", dyn, 0},
+		{"wide-tuple", `["tuple",[`, `"string",`, `"string"]]`, "", "", dyn, 0},
+		{"wide-object-dup", `["object",{`, `"a":"string",`, `"a":"number"}]`, "", "", dyn, 0},
+		{"wide-optional", `["object",{"a":"string"},[`, `"a",`, `"a"]]`, "", "", dyn, 0},
+		{"long-keyword", `"`, "x", `"`, "", "", dyn, 0},
+		{"long-attr", `["object",{"`, "k", `":"string"}]`, "", "", dyn, 0},
+		{"bare-nest", "", "[", "", "]", "", dyn, 0},
+		{"bare-nest-open", "", "[", "", "", "", dyn, 0},
+		{"list-nest-open", "", `["list",`, "", "", "", dyn, 0},
+		{"whitespace", "", " ", `"string"`, "", "", dyn, 0},
 	},
 	DJSONImplied: {
-		{"array-nest", "", "[", "", "]", "", dyn},
-		{"array-nest-open", "", "[", "", "", "", dyn},
-		{"object-nest", "", `{"a":`, "null", "}", "", dyn},
-		{"object-nest-open", "", `{"a":`, "", "", "", dyn},
-		{"wide-array", "[", "1,", "1]", "", "", dyn},
-		{"wide-array-mixed", "[", `1,"a",null,[],{},`, "true]", "", "", dyn},
-		{"wide-object-dup", "{", `"a":1,`, `"a":2}`, "", "", dyn},
-		{"wide-object-dup-mixed", "{", `"a":1,`, `"a":"x"}`, "", "", dyn},
-		{"long-string", `"`, "a", `"`, "", "", dyn},
-		{"long-key", `{"`, "k", `":1}`, "", "", dyn},
-		{"long-digits", "", "9", "", "", "", dyn},
-		{"long-exponent", "1e", "9", "", "", "", dyn},
-		{"whitespace", "", " ", "null", "", "", dyn},
+		{"array-nest", "", "[", "", "]", "", dyn, 0},
+		{"array-nest-open", "", "[", "", "", "", dyn, 0},
+		{"object-nest", "", `{"a":`, "null", "}", "", dyn, 0},
+		{"object-nest-open", "", `{"a":`, "", "", "", dyn, 0},
+		{"wide-array", "[", "1,", "1]", "", "", dyn, 0},
+		{"wide-array-mixed", "[", `1,"a",null,[],{},`, "true]", "", "", dyn, 0},
+		{"wide-object-dup", "{", `"a":1,`, `"a":2}`, "", "", dyn, 0},
+		{"wide-object-dup-mixed", "{", `"a":1,`, `"a":"x"}`, "", "", dyn, 0},
+		{"long-string", `"`, "a", `"`, "", "", dyn, 0},
+		{"long-key", `{"`, "k", `":1}`, "", "", dyn, 0},
+		{"long-digits", "", "9", "", "", "", dyn, 0},
+		{"long-exponent", "1e", "9", "", "", "", dyn, 0},
+		{"whitespace", "", " ", "null", "", "", dyn, 0},
 	},
 	DMsgpackValue: {
-		{"list-nest", "", "\x91", "\xc0", "", "", func(d int) spec.T { return nest(spec.KList, d, spec.Dynamic) }},
-		{"list-nest-str", "", "\x91", "\xa1x", "", "", func(d int) spec.T { return nest(spec.KList, d, spec.String) }},
-		{"set-nest", "", "\x91", "\x01", "", "", func(d int) spec.T { return nest(spec.KSet, d, spec.Number) }},
-		{"tuple-nest", "", "\x91", "\xc3", "", "", func(d int) spec.T { return nest(spec.KTuple, d, spec.Bool) }},
-		{"map-nest", "", "\x81\xa1a", "\x01", "", "", func(d int) spec.T { return nest(spec.KMap, d, spec.Number) }},
-		{"obj-nest", "", "\x81\xa1a", "\xc0", "", "", func(d int) spec.T { return nest(spec.KObject, d, spec.String) }},
-		{"dyn-nest", "", "\x92" + bin(`"dynamic"`), "\xc0", "", "", dyn},
-		{"dyn-list-nest", "", "\x92" + bin(`["list","dynamic"]`) + "\x91", "\x92" + bin(`"string"`) + "\xa1x", "", "", dyn},
-		{"dyn-tuple-nest", "", "\x92" + bin(`["tuple",["dynamic"]]`) + "\x91", "\xc0", "", "", dyn},
-		{"dyn-type-nest", "\x92\xc5\xff\xff", `["list",`, `"string"`, "]", "\xc0", dyn},
-		{"array32-nest", "", "\xdd\x00\x00\xff\xff", "\xc0", "", "", func(d int) spec.T { return nest(spec.KList, d, spec.Dynamic) }},
-		{"array32-max", "", "\xdd\xff\xff\xff\xff", "\xc0", "", "", func(d int) spec.T { return nest(spec.KSet, d, spec.String) }},
-		{"map32-max", "", "\xdf\xff\xff\xff\xff\xa1a", "\xc0", "", "", func(d int) spec.T { return nest(spec.KMap, d, spec.String) }},
-		{"array16-nest", "", "\xdc\xff\xff", "\xc0", "", "", func(d int) spec.T { return nest(spec.KList, d, spec.Bool) }},
-		{"wide-list", "\xdc\xff\xff", "\x01", "", "", "", constT(spec.List(spec.Number))},
-		{"wide-set", "\xdc\xff\xff", "\xa1a", "", "", "", constT(spec.Set(spec.String))},
-		{"wide-unknowns", "\xdc\xff\xff", "\xc7\x03\x0c\x81\x01\xc2", "", "", "", constT(spec.List(spec.String))},
-		{"wide-refined", "\xdc\xff\xff", "\xc7\x0a\x0c\x82\x03\x92\x00\xc3\x04\x92\x05\xc3", "", "", "", constT(spec.List(spec.Number))},
-		{"wide-map-dupkeys", "\xde\xff\xff", "\xa1a\x01", "", "", "", constT(spec.Map(spec.Number))},
-		{"str32-max", "\xdb\xff\xff\xff\xff", "a", "", "", "", constT(spec.String)},
-		{"str32-in-list", "\x91", "\xdb\x7f\xff\xff\xff", "a", "", "", constT(spec.List(spec.String))},
-		{"bin32-max", "\x92\xc6\xff\xff\xff\xff", `"string"`, "", "", "", dyn},
-		{"ext32-max", "\xc9\xff\xff\xff\xff\x0c", "\x81\x01\xc2", "", "", "", constT(spec.String)},
-		{"ext16-refmap", "\xc8\x04\x00\x0c\xdf\xff\xff\xff\xff", "\x01\xc2", "", "", "", constT(spec.String)},
-		{"ext8-bigmap", "\xc7\x06\x0c\xdf\xff\xff\xff\xff\x01", "\xc2", "", "", "", constT(spec.Number)},
-		{"long-string", "\xda\xff\xff", "a", "", "", "", constT(spec.String)},
-		{"long-number-str", "\xda\xff\xff", "9", "", "", "", constT(spec.Number)},
-		{"long-prefix", "\xc8\x03\xf0\x0c\x81\x02\xda\x03\xec", "a", "", "", "", constT(spec.String)},
+		{"list-nest", "", "\x91", "\xc0", "", "", func(d int) spec.T { return nest(spec.KList, d, spec.Dynamic) }, 0},
+		{"list-nest-str", "", "\x91", "\xa1x", "", "", func(d int) spec.T { return nest(spec.KList, d, spec.String) }, 0},
+		{"set-nest", "", "\x91", "\x01", "", "", func(d int) spec.T { return nest(spec.KSet, d, spec.Number) }, 0},
+		{"tuple-nest", "", "\x91", "\xc3", "", "", func(d int) spec.T { return nest(spec.KTuple, d, spec.Bool) }, 0},
+		{"map-nest", "", "\x81\xa1a", "\x01", "", "", func(d int) spec.T { return nest(spec.KMap, d, spec.Number) }, 0},
+		{"obj-nest", "", "\x81\xa1a", "\xc0", "", "", func(d int) spec.T { return nest(spec.KObject, d, spec.String) }, 0},
+		{"dyn-nest", "", "\x92" + bin(`"dynamic"`), "\xc0", "", "", dyn, 0},
+		{"dyn-list-nest", "", "\x92" + bin(`["list","dynamic"]`) + "\x91", "\x92" + bin(`"string"`) + "\xa1x", "", "", dyn, 0},
+		{"dyn-tuple-nest", "", "\x92" + bin(`["tuple",["dynamic"]]`) + "\x91", "\xc0", "", "", dyn, 0},
+		{"dyn-type-nest", "\x92\xc5\xff\xff", `["list",`, `"string"`, "]", "\xc0", dyn, 0},
+		{"array32-nest", "", "\xdd\x00\x00\xff\xff", "\xc0", "", "", func(d int) spec.T { return nest(spec.KList, d, spec.Dynamic) }, 48},
+		{"array32-max", "", "\xdd\xff\xff\xff\xff", "\xc0", "", "", func(d int) spec.T { return nest(spec.KSet, d, spec.String) }, 8},
+		{"map32-max", "", "\xdf\xff\xff\xff\xff\xa1a", "\xc0", "", "", func(d int) spec.T { return nest(spec.KMap, d, spec.String) }, 8},
+		{"array16-nest", "", "\xdc\xff\xff", "\xc0", "", "", func(d int) spec.T { return nest(spec.KList, d, spec.Bool) }, 48},
+		{"wide-list", "\xdc\xff\xff", "\x01", "", "", "", constT(spec.List(spec.Number)), 0},
+		{"wide-set", "\xdc\xff\xff", "\xa1a", "", "", "", constT(spec.Set(spec.String)), 0},
+		{"wide-unknowns", "\xdc\xff\xff", "\xc7\x03\x0c\x81\x01\xc2", "", "", "", constT(spec.List(spec.String)), 0},
+		{"wide-refined", "\xdc\xff\xff", "\xc7\x0a\x0c\x82\x03\x92\x00\xc3\x04\x92\x05\xc3", "", "", "", constT(spec.List(spec.Number)), 0},
+		{"wide-map-dupkeys", "\xde\xff\xff", "\xa1a\x01", "", "", "", constT(spec.Map(spec.Number)), 0},
+		{"str32-max", "\xdb\xff\xff\xff\xff", "a", "", "", "", constT(spec.String), 0},
+		{"str32-in-list", "\x91", "\xdb\x7f\xff\xff\xff", "a", "", "", constT(spec.List(spec.String)), 0},
+		{"bin32-max", "\x92\xc6\xff\xff\xff\xff", `"string"`, "", "", "", dyn, 0},
+		{"ext32-max", "\xc9\xff\xff\xff\xff\x0c", "\x81\x01\xc2", "", "", "", constT(spec.String), 0},
+		{"ext16-refmap", "\xc8\x04\x00\x0c\xdf\xff\xff\xff\xff", "\x01\xc2", "", "", "", constT(spec.String), 0},
+		{"ext8-bigmap", "\xc7\x06\x0c\xdf\xff\xff\xff\xff\x01", "\xc2", "", "", "", constT(spec.Number), 0},
+		{"long-string", "\xda\xff\xff", "a", "", "", "", constT(spec.String), 0},
+		{"long-number-str", "\xda\xff\xff", "9", "", "", "", constT(spec.Number), 0},
+		{"long-prefix", "\xc8\x03\xf0\x0c\x81\x02\xda\x03\xec", "a", "", "", "", constT(spec.String), 0},
 	},
 	DMsgpackImplied: {
-		{"array-nest", "", "\x91", "\xc0", "", "", dyn},
-		{"map-nest", "", "\x81\xa1a", "\xc0", "", "", dyn},
-		{"array32-nest", "", "\xdd\x00\x00\xff\xff", "\xc0", "", "", dyn},
-		{"array32-max", "", "\xdd\xff\xff\xff\xff", "\xc0", "", "", dyn},
-		{"array16-nest", "", "\xdc\xff\xff", "\xc0", "", "", dyn},
-		{"map32-max", "", "\xdf\xff\xff\xff\xff\xa1a", "\xc0", "", "", dyn},
-		{"map16-nest", "", "\xde\xff\xff\xa1a", "\xc0", "", "", dyn},
-		{"wide-array", "\xdc\xff\xff", "\x01", "", "", "", dyn},
-		{"wide-map-dupkeys", "\xde\xff\xff", "\xa1a\x01", "", "", "", dyn},
-		{"wide-map-mixed", "\xde\xff\xff", "\xa1a\x01\xa1a\xc3", "", "", "", dyn},
-		{"str32-max", "\xdb\xff\xff\xff\xff", "a", "", "", "", dyn},
-		{"bin32-max", "\xc6\xff\xff\xff\xff", "a", "", "", "", dyn},
-		{"ext32-max", "\xc9\xff\xff\xff\xff\x0c", "a", "", "", "", dyn},
-		{"ext-in-array", "\xdc\xff\xff", "\xc7\x03\x0c\x81\x01\xc2", "", "", "", dyn},
-		{"long-string", "\xda\xff\xff", "a", "", "", "", dyn},
+		{"array-nest", "", "\x91", "\xc0", "", "", dyn, 0},
+		{"map-nest", "", "\x81\xa1a", "\xc0", "", "", dyn, 0},
+		{"array32-nest", "", "\xdd\x00\x00\xff\xff", "\xc0", "", "", dyn, 48},
+		{"array32-max", "", "\xdd\xff\xff\xff\xff", "\xc0", "", "", dyn, 8},
+		{"array16-nest", "", "\xdc\xff\xff", "\xc0", "", "", dyn, 48},
+		{"map32-max", "", "\xdf\xff\xff\xff\xff\xa1a", "\xc0", "", "", dyn, 8},
+		{"map16-nest", "", "\xde\xff\xff\xa1a", "\xc0", "", "", dyn, 48},
+		{"wide-array", "\xdc\xff\xff", "\x01", "", "", "", dyn, 0},
+		{"wide-map-dupkeys", "\xde\xff\xff", "\xa1a\x01", "", "", "", dyn, 0},
+		{"wide-map-mixed", "\xde\xff\xff", "\xa1a\x01\xa1a\xc3", "", "", "", dyn, 0},
+		{"str32-max", "\xdb\xff\xff\xff\xff", "a", "", "", "", dyn, 0},
+		{"bin32-max", "\xc6\xff\xff\xff\xff", "a", "", "", "", dyn, 0},
+		{"ext32-max", "\xc9\xff\xff\xff\xff\x0c", "a", "", "", "", dyn, 0},
+		{"ext-in-array", "\xdc\xff\xff", "\xc7\x03\x0c\x81\x01\xc2", "", "", "", dyn, 0},
+		{"long-string", "\xda\xff\xff", "a", "", "", "", dyn, 0},
 	},
 }
 
 var memCountsSmall = []int{0, 1, 2, 3, 8, 15, 16, 17, 31, 32, 40, 41, 100, 255, 256, 1000, 2000}
 var memCountsBig = []int{4096, 9999, 10001, 16384, 20000, 32768, 65535, 65536}
 
-func genMem(dec string) func(t *rapid.T) Input {
+// unbiased draws an integer in [0, n) uniformly: a 64-bit draw pushed through a
+// fixed bijective mixer (splitmix64 finalizer), so that rapid's preference for
+// small and extreme values does not carry over. Still a pure function of the draw.
+func unbiased(t *rapid.T, label string, n int) int {
+	x := rapid.Uint64().Draw(t, label)
+	x ^= x >> 30
+	x *= 0xbf58476d1ce4e5b9
+	x ^= x >> 27
+	x *= 0x94d049bb133111eb
+	x ^= x >> 31
+	return int(x % uint64(n))
+}
+
+// genMem draws hostile shapes for one decoder. One case in bigOneIn uses a
+// count near the 64 KiB input bound: on the unchanged tree the JSON decoders
+// take seconds on deeply nested inputs of that size (quadratic re-buffering,
+// known finding), so the quick tier affords only a few of them.
+func genMem(dec string, bigOneIn int) func(t *rapid.T) Input {
 	return func(t *rapid.T) Input {
 		rs := memRecipes[dec]
 		r := rs[rapid.IntRange(0, len(rs)-1).Draw(t, "recipe")]
-		// three quarters small counts: the big ones cost up to seconds each on
+		// seven eighths small counts: the big ones cost up to seconds each on
 		// the unchanged tree (quadratic re-buffering, known finding)
+		per := len(r.open) + len(r.close)
+		fixed := len(r.pre) + len(r.leaf) + len(r.end)
+		maxN := 70000
+		if per > 0 {
+			maxN = (maxInputLen - fixed) / per
+		}
+		if r.maxN > 0 && maxN > r.maxN {
+			maxN = r.maxN
+		}
 		var n int
-		switch rapid.IntRange(0, 7).Draw(t, "countclass") {
-		case 0:
+		// rapid's integer draws favour the ends of their range; the classes and
+		// the free count are drawn through unbiased() so that the expensive
+		// classes really are as rare as intended
+		switch c := unbiased(t, "countclass", 2*bigOneIn); {
+		case c == 0:
 			n = rapid.SampledFrom(memCountsBig).Draw(t, "bigcount")
-		case 1:
-			n = rapid.IntRange(0, 70000).Draw(t, "n")
-		case 2:
-			n = rapid.IntRange(0, 3000).Draw(t, "n")
+		case c == 1:
+			n = unbiased(t, "n", maxN+1)
+		case c < 2+bigOneIn/2:
+			n = unbiased(t, "n", 3001)
 		default:
 			n = rapid.SampledFrom(memCountsSmall).Draw(t, "count")
 		}
-		per := len(r.open) + len(r.close)
-		fixed := len(r.pre) + len(r.leaf) + len(r.end)
-		if per > 0 && fixed+n*per > maxInputLen {
-			n = (maxInputLen - fixed) / per
+		if n > maxN {
+			n = maxN
 		}
 		leaf := []byte(r.leaf)
 		ops := []string{"recipe=" + r.name}
